@@ -72,6 +72,12 @@ func C11(c *core.Ctx) {
 		"kind of re-open, where the newest version lived: memtable WAL / L0 / deeper level)")
 	work := c.WorkDir()
 	defer os.RemoveAll(work)
+	// after StreamWriter.Flush (concurrent Write calls, non-managed): contents and the first new commit
+	// are judged by the C26 machinery, reported here under C11
+	rs := c.Rand("c11-streamwriter")
+	for j := 0; j < c.Pick(4, 24); j++ {
+		c26Run(c, "C11|streamwriter", work, 8*j+5, rs)
+	}
 	r := c.Rand("c11")
 	n := c.Pick(24, 200)
 	for i := 0; i < n; i++ {
